@@ -40,6 +40,7 @@ func checkTruncateGuards(w *World, r *Report, rule string, s *Sink) {
 	b := s.Instr.Block()
 	okRO, okScan := false, false
 	scanName := ""
+	var scanCall *ssa.Call
 	for _, g := range guardsOf(b) {
 		c, pol := g.atom()
 		if _, ok := isLoadOfField(c, "Store", "readOnly"); ok && !pol {
@@ -50,6 +51,7 @@ func checkTruncateGuards(w *World, r *Report, rule string, s *Sink) {
 				if f := call.Common().StaticCallee(); f != nil && w.InLib(f) && w.reachesSink(f, "ReadAt") != nil && len(w.sizeWritesInReach(f)) > 0 {
 					okScan = true
 					scanName = w.Name(f)
+					scanCall = call
 				}
 			}
 		}
@@ -59,6 +61,45 @@ func checkTruncateGuards(w *World, r *Report, rule string, s *Sink) {
 	r.Check(okScan, rule, key+" › after successful scan", w.InstrPos(s.Instr), "dominated by the success arm (err == nil) of the backward scan "+scanName, "Truncate is not dominated by the success arm of the backward root scan")
 	arg := s.Instr.Common().Args[0]
 	r.Check(w.isSizeLoad(arg), rule, key+" › argument", w.InstrPos(s.Instr), "argument is an atomic load of Store.size (the cursor left by the scan)", "Truncate argument is not the scanned Store.size")
+	// T3c (round 6): the cursor the scan left is the cursor handed to Truncate — nothing on
+	// a path from the scan's return to the Truncate may write Store.size (directly or in a
+	// callee): the file would be cut somewhere other than the end of the root record found.
+	if scanCall != nil {
+		fn := s.Instr.Parent()
+		trunc := ssa.Instruction(s.Instr)
+		movers := func(in ssa.Instruction) bool {
+			if in == ssa.Instruction(scanCall) || in == trunc {
+				return false
+			}
+			for _, sw := range w.sizeWritesIn(fn) {
+				if sw.Instr == in {
+					return true
+				}
+			}
+			if c, ok := in.(ssa.CallInstruction); ok {
+				if f := c.Common().StaticCallee(); f != nil && w.InLib(f) && len(w.sizeWritesInReach(f)) > 0 {
+					return true
+				}
+				if f := c.Common().StaticCallee(); f != nil {
+					if _, isSetter := w.sizeSetters()[f]; isSetter {
+						return true
+					}
+				}
+			}
+			return false
+		}
+		var bad ssa.Instruction
+		if hit, _ := pathAvoidingCFG(fn, scanCall, movers, func(in ssa.Instruction) bool { return in == trunc }, nil); hit != nil {
+			if again, _ := pathAvoidingCFG(fn, hit, func(in ssa.Instruction) bool { return in == trunc }, nil, nil); again != nil {
+				bad = hit
+			}
+		}
+		pos := w.InstrPos(s.Instr)
+		if bad != nil {
+			pos = w.InstrPos(bad)
+		}
+		r.Check(bad == nil, rule, key+" › cursor untouched between scan and Truncate", pos, "no write of Store.size lies on a path from the scan's return to the Truncate: the file is cut exactly where the scan stopped", "Store.size is written between the backward scan and the Truncate: the file is cut somewhere other than the end of the root record the scan found (a later FlushRevert or re-open loses flushed states)")
+	}
 }
 
 // sizeWritesInReach: all writes to Store.size in functions reachable from fn.
